@@ -62,8 +62,9 @@ class Path:
 
 
 class Engine:
-    def __init__(self, tu, fname, fold_enums=False):
+    def __init__(self, tu, fname, fold_enums=False, again=True):
         self.tu = tu; self.fname = fname; self.fn = tu.fn(fname); self.fold = fold_enums
+        self.again = again            # after the first loop iteration also explore one generic (havocked) iteration
         self.body = tu.body(fname)
         self.call_ids = {}            # CallExpr node id -> symbolic name
         per = {}
@@ -360,11 +361,11 @@ class Engine:
             if cond is not None and cond.get('kind'):
                 for s_, t in self.cond_paths(cond, r):
                     if not t: res += exit_(s_)
-                    elif depth == 0:
+                    elif depth == 0 and self.again:
                         s_.events.append(('loop', tag + ':again', st))
                         res += self.run([body], s_, lambda x: after_iter(x, 1), labels, exit_, lambda x: after_iter(x, 1))
                 return res
-            if depth == 0:
+            if depth == 0 and self.again:
                 r.events.append(('loop', tag + ':again', st))
                 return self.run([body], r, lambda x: after_iter(x, 1), labels, exit_, lambda x: after_iter(x, 1))
             return []          # for(;;) leaves only through break/return
@@ -463,6 +464,6 @@ def _fold(op, a, b):
     return None
 
 
-def summarise(tu, fname, fold_enums=False):
-    e = Engine(tu, fname, fold_enums)
+def summarise(tu, fname, fold_enums=False, again=True):
+    e = Engine(tu, fname, fold_enums, again)
     return e, e.paths()
